@@ -27,11 +27,11 @@ kf("C08", "C08-forward-reference-inside-bitcast", "the pass that orders module-s
    ["C08|lower|-|*function host body: unresolved identifier: KC|F8h/const/any/bitcast*", "C08|lower|-|*function host body: unresolved identifier: gp|F8h/var/any/bitcast*",
     "C08|lower|-|*function host body: unknown function: SI|F8h/struct/any/bitcast*", "C08|lower|-|*function host body: unknown function: AI|F8h/alias/any/bitcast*",
     "C08|spirv|*|SPIR-V generation error: function # not found in functionIDs|F8h/fn/any/bitcast*",
-    "C08|compile|default|SPIR-V generation error: SPIR-V generation error: function # not found in functionIDs|F8h/fn/any/bitcast*"])
+    "C08|compile|default|SPIR-V generation error: SPIR-V generation error: function # not found in functionIDs|F8h/fn/any/bitcast*"], "fixed:8f85c46")
 kf("C08", "C08-forward-reference-after-nested-shadow", "a local declared in a nested block (or a for initialiser) hides the module-scope const/var of the same name from the declaration-ordering pass for the REST of the function, not only until the block ends: `fn h() -> i32 { { let g = 7; } return g; } const g: i32 = 5;` is rejected with \"unresolved identifier: g\" although the final `g` is the (later-declared) module constant; accepted when the constant is declared first",
    ["C08|lower|-|*function host body: unresolved identifier: g|F8s/const/*/noref/after/decl-after/in-helper", "C08|lower|-|*function host body: unresolved identifier: g|F8s/const/*/noref/after/decl-last/in-helper",
     "C08|lower|-|*function host body: unresolved identifier: g|F8s/aconst/*/noref/after/decl-after/in-helper", "C08|lower|-|*function host body: unresolved identifier: g|F8s/aconst/*/noref/after/decl-last/in-helper",
-    "C08|lower|-|*function host body: unresolved identifier: g|F8s/var/*/noref/after/decl-after/in-helper"])
+    "C08|lower|-|*function host body: unresolved identifier: g|F8s/var/*/noref/after/decl-after/in-helper"], "fixed:ba8a290")
 kf("C08", "C08-bitcast-alias-target", "`bitcast<AI>(4u)` with `alias AI = i32;` is rejected (\"unsupported bitcast target type 'AI'\") wherever the alias is declared",
    ["C08|lower|-|*bitcast target type: unsupported bitcast target type 'AI'|F8h/alias/only/bitcast-type/*"])
 kf("C08", "C08-case-selector-const-expression", "a case selector that is a const-expression other than a literal or a named constant is rejected: `case SI(4, 2).a:` (\"member access on non-vector call 'SI' in constant expression\"), `case AI(4):` with `alias AI = i32;` (\"unsupported function 'AI' in constant expression\")",
@@ -67,7 +67,7 @@ kf("C01", "C01-const-composite-null", "a module-scope `const` of array type copi
 kf("C01", "C01-block-const-outlives-block", 'a function-scope `const` without type annotation declared in a nested block stays bound after the block ends (popScope does not drop the deferred initialiser): `const g: i32 = 5; fn h() -> i32 { var acc = 0; { const g = 7; acc += g; } acc += g; return acc; }` returns 14 instead of 12 (same with a module-scope var g)',
    ["C01|F8s/*/blk-const/noref/after/*|*|mismatch"])
 kf("C01", "C01-workgroup-size-forward-const", '`@workgroup_size(WG)` with `const WG: u32 = 2u;` declared AFTER the entry point is compiled with workgroup size 1 (no error); with the const declared first it is 2',
-   ["C01|F8o/workgroup-size-const/*|*|mismatch"])
+   ["C01|F8o/workgroup-size-const/*|*|mismatch"], "fixed:397bbe6")
 
 # ---------------------------------------------------------------- C03 (HLSL semantics)
 kf("C03", "C03-clz-ctz", "countLeadingZeros/countTrailingZeros are emitted as bare firstbithigh/firstbitlow (clz(1)=0, ctz(0)=0xFFFFFFFF instead of 32)",
@@ -82,11 +82,11 @@ kf("C03", "C03-inverse-hyperbolic", "asinh/acosh/atanh are emitted as calls to f
 kf("C03", "C03-block-const-outlives-block", 'a function-scope `const` without type annotation declared in a nested block stays bound after the block ends (popScope does not drop the deferred initialiser): `const g: i32 = 5; fn h() -> i32 { var acc = 0; { const g = 7; acc += g; } acc += g; return acc; }` returns 14 instead of 12 (same with a module-scope var g)',
    ["C03|F8s/*/blk-const/noref/after/*|*|mismatch"])
 kf("C03", "C03-workgroup-size-forward-const", '`@workgroup_size(WG)` with `const WG: u32 = 2u;` declared AFTER the entry point is compiled with workgroup size 1 (no error); with the const declared first it is 2',
-   ["C03|F8o/workgroup-size-const/*|*|mismatch"])
+   ["C03|F8o/workgroup-size-const/*|*|mismatch"], "fixed:397bbe6")
 kf("C03", "C03-loop-body-value-in-continuing", 'a value bound in a loop body from a function call and used in the continuing block (`loop { if n >= 2 { break; } let t = f(0) * 2; continuing { n += 1; acc += t; } }`) is emitted in the continuing position as a reference to a name that is never declared' + " (`_f_result`)",
    ["C03|F8s/fn/loop-let/ref/*|*|malformed-output:undeclared identifier*"])
 kf("C03", "C03-forward-call-inside-bitcast", 'forward call inside a bitcast operand (`bitcast<u32>(f1(1))` with f1 declared later): the callee is lowered and emitted after its caller (see C08-forward-reference-inside-bitcast)' + ": call of an undeclared function in HLSL",
-   ["C03|F8h/fn/any/bitcast*|*|malformed-output:call of undeclared function*"])
+   ["C03|F8h/fn/any/bitcast*|*|malformed-output:call of undeclared function*"], "fixed:8f85c46")
 
 # ---------------------------------------------------------------- C04 (MSL semantics)
 kf("C04", "C04-round-ties", "round() is emitted as metal::round (ties away from zero); WGSL requires ties-to-even (metal::rint)",
@@ -103,7 +103,7 @@ kf("C04", "C04-block-const-outlives-block", 'a function-scope `const` without ty
 kf("C04", "C04-loop-body-value-in-continuing", 'a value bound in a loop body from a function call and used in the continuing block (`loop { if n >= 2 { break; } let t = f(0) * 2; continuing { n += 1; acc += t; } }`) is emitted in the continuing position as a reference to a name that is never declared' + " (the MSL text does not parse)",
    ["C04|F8s/fn/loop-let/ref/*|*|malformed-output:unexpected*"])
 kf("C04", "C04-forward-call-inside-bitcast", 'forward call inside a bitcast operand (`bitcast<u32>(f1(1))` with f1 declared later): the callee is lowered and emitted after its caller (see C08-forward-reference-inside-bitcast)' + ": use of an undeclared identifier in MSL",
-   ["C04|F8h/fn/any/bitcast*|*|malformed-output:use of undeclared identifier*"])
+   ["C04|F8h/fn/any/bitcast*|*|malformed-output:use of undeclared identifier*"], "fixed:8f85c46")
 
 # ---------------------------------------------------------------- C05 (GLSL semantics)
 kf("C05", "C05-vector-select-ternary", "select() with a vector condition is emitted as `bvec ? a : b`; the ?: condition must be a scalar bool in GLSL (invalid at every version)",
@@ -118,11 +118,11 @@ kf("C05", "C05-abs-unsigned", "abs(u32) is emitted as abs(uint), which GLSL does
 kf("C05", "C05-block-const-outlives-block", 'a function-scope `const` without type annotation declared in a nested block stays bound after the block ends (popScope does not drop the deferred initialiser): `const g: i32 = 5; fn h() -> i32 { var acc = 0; { const g = 7; acc += g; } acc += g; return acc; }` returns 14 instead of 12 (same with a module-scope var g)',
    ["C05|F8s/*/blk-const/noref/after/*|*|mismatch"])
 kf("C05", "C05-workgroup-size-forward-const", '`@workgroup_size(WG)` with `const WG: u32 = 2u;` declared AFTER the entry point is compiled with workgroup size 1 (no error); with the const declared first it is 2',
-   ["C05|F8o/workgroup-size-const/*|*|mismatch"])
+   ["C05|F8o/workgroup-size-const/*|*|mismatch"], "fixed:397bbe6")
 kf("C05", "C05-loop-body-value-in-continuing", 'a value bound in a loop body from a function call and used in the continuing block (`loop { if n >= 2 { break; } let t = f(0) * 2; continuing { n += 1; acc += t; } }`) is emitted in the continuing position as a reference to a name that is never declared' + " (GLSL: the function's name is used as a value)",
    ["C05|F8s/fn/loop-let/ref/*|*|malformed-output:function*used without a call"])
 kf("C05", "C05-forward-call-inside-bitcast", 'forward call inside a bitcast operand (`bitcast<u32>(f1(1))` with f1 declared later): the callee is lowered and emitted after its caller (see C08-forward-reference-inside-bitcast)' + ": undeclared identifier in GLSL",
-   ["C05|F8h/fn/any/bitcast*|*|malformed-output:undeclared identifier*"])
+   ["C05|F8h/fn/any/bitcast*|*|malformed-output:undeclared identifier*"], "fixed:8f85c46")
 
 # ---------------------------------------------------------------- C10 (robustness)
 kf("C10", "C10-swizzle-chain-exponential", "a chained swizzle `v.xyzw.xyzw...` makes lowering time and memory grow exponentially: 64 links (under 400 bytes of source) exceed the CPU cap or, on a faster machine, exhaust the 4 GiB address-space limit first (out of memory in Lowerer.addExpressionRaw)",
@@ -176,7 +176,7 @@ kf("C09", "C09-cmpxchg-result-member-emit", "members of the atomicCompareExchang
 kf("C09", "C09-alias-scalar-duplicate-type", "`alias AI = i32;` adds a second i32 entry to the type arena: a variable or member declared with the alias has a different type handle than the i32 values stored to it (`alias AI = i32; var<private> g: AI = 1; ... g = g + 1;` stores #2:i32 through ptr<#4:i32>), so the module is not deduplicated",
    ["C09|store-type|*|F8o/alias-chain/*", "C09|store-type|*|F8o/struct-nest/*", "C09|store-type|*|F8o/var-init/*"])
 kf("C09", "C09-forward-call-inside-bitcast", "forward call inside a bitcast operand (`bitcast<u32>(f1(1))` with f1 declared later): the call is lowered before its callee, so the argument literal stays abstract-int, the call result and the bitcast have no recorded type (see C08-forward-reference-inside-bitcast)",
-   ["C09|call-args|*|F8h/fn/any/bitcast*", "C09|no-abstract|*|F8h/fn/any/bitcast*", "C09|expr-type|*|F8h/fn/any/bitcast*"])
+   ["C09|call-args|*|F8h/fn/any/bitcast*", "C09|no-abstract|*|F8h/fn/any/bitcast*", "C09|expr-type|*|F8h/fn/any/bitcast*"], "fixed:8f85c46")
 
 # ---------------------------------------------------------------- C12 (determinism, histories, schedules)
 kf("C12", "C12-backend-version-leak", "a reused spirv.Backend kept options.Version bumped to 1.4 by an earlier Compile (atomicOps-int64, workgroup-var-init): every later module was emitted as SPIR-V 1.4",
@@ -271,7 +271,7 @@ kf("C11", "C11-unchecked-const-expression-contexts", "the expression in an array
     "C11|G:undeclared-identifier(ident-const:*|accepted|const-assert-stmt/*", "C11|G:unknown-function(unknown-fn-const:*|accepted|const-assert-stmt/*", "C11|G:unknown-member(member-ctor:*|accepted|const-assert-stmt/*", "C11|G:swizzle-*(swizzle-const:*|accepted|const-assert-stmt/*",
     "C11|undeclared-identifier|accepted|rich/all-declaration-and-statement-kinds"])
 kf("C11", "C11-const-assert-forward-const", "a false `const_assert KC == 1;` (function scope or module scope) is accepted when the module constant it mentions (`const KC: i32 = 4;`) is declared after the assertion / after the function containing it: an assertion that cannot be evaluated at that point passes silently",
-   ["C11|G:const-assert-false(const-assert-const:module-const)|accepted|stmt/*/decls-after", "C11|M:const-assert-false(const-assert-const:module-const)|accepted|module-const-assert/after-users"])
+   ["C11|G:const-assert-false(const-assert-const:module-const)|accepted|stmt/*/decls-after", "C11|M:const-assert-false(const-assert-const:module-const)|accepted|module-const-assert/after-users"], "fixed:c2eb449")
 kf("C11", "C11-function-const-scope-leak", "a function-scope `const k = 7;` declared in a nested block (if/else arm, loop body, switch clause, compound statement) stays visible after the block ends: `{ const k = 7; } acc = k;` and `if c { const k = 7; } else { acc = k; }` compile (let/var are scoped correctly)",
    ["C11|S:undeclared-identifier(out-of-scope:const:value)|accepted|*"])
 kf("C11", "C11-builtin-result-discarded", "a call statement that discards the result of a builtin function (`min(1, 2);`; every value-returning builtin is @must_use in WGSL) is accepted; only user functions marked @must_use are diagnosed",
@@ -281,7 +281,7 @@ kf("C11", "C11-vector-unknown-element-type", "`vec2<ZzUnknownType>()` (a vector 
 kf("C11", "C11-let-type-annotation-ignored", "the type annotation of a function-scope `let` is never resolved: `let t: ZzUnknownType = array<i32, 4>(1, 2, 3, 4);`, `let t: array<i32, 0> = ...`, `let t: array<i32, KZ> = ...` (const KZ = 0) and even `let t: f32 = 1u;` compile (the same types on a `var` are rejected)",
    ["C11|G:unknown-type(*|accepted|let-type/*", "C11|G:array-size-zero(*|accepted|let-type/*"])
 kf("C11", "C11-forward-call-inside-bitcast", "a call inside `bitcast<T>(...)` is invisible to the declaration-order analysis: in an entry point written before the callee, `bitcast<i32>(f1())` / `bitcast<i32>(f1(1, 2))` for `fn f1(a: i32) -> i32` compiles (no argument count/type check), and `bitcast<i32>(fp(1))` for a pointer parameter fails only in ir.Validate, without a source position (in a helper function the valid call fails in the SPIR-V backend: 'function 1 not found in functionIDs')",
-   ["C11|G:call-arg-count(*|accepted|bitcast/*/entry/decls-after", "C11|G:call-arg-type(*|accepted|bitcast/*/entry/decls-after", "C11|G:call-arg-type(call-ptr:ptr<-literal)|no-position|bitcast/*/entry/decls-after"])
+   ["C11|G:call-arg-count(*|accepted|bitcast/*/entry/decls-after", "C11|G:call-arg-type(*|accepted|bitcast/*/entry/decls-after", "C11|G:call-arg-type(call-ptr:ptr<-literal)|no-position|bitcast/*/entry/decls-after"], "fixed:8f85c46")
 
 # ---------------------------------------------------------------- C07 (memory layout)
 kf("C07", "C07-inner-struct-align-attribute", "the alignment of a struct whose member carries @align(n) is not propagated to the enclosing struct/array: `struct I0 { @align(16) m0: u32 } struct S0 { m0: u32, m1: I0, m2: u32 }` places m1 at offset 4 (span 24) where WGSL has offset 16 (size 48); wrong in the IR, in SPIR-V Offset decorations and in every backend's addressing",
